@@ -5,7 +5,7 @@
 (* string: a key written as a canonical number is an integer/float and is  *)
 (* rejected (as-code, see DECISIONS.md).                                   *)
 (***************************************************************************)
-EXTENDS CmdGeneric
+EXTENDS CmdBase
 
 XAppend(C, a) ==
     IF Len(a) # 3 THEN Fail(C)
